@@ -518,6 +518,26 @@ fn run(case: &Case) -> Result<Outcome, V> {
             // documented: when the algo step hits a fatal delivery error the engine drops the AlgoOrders output
             if claims.audit_errors > 0 && !claims.algo_output_present && !claims.command_fatal && engine.strategy.algo_calls() > algo_before {
                 out.unreported_deliveries += unreported.len() as u64; // documented: algo output dropped on fatal error
+                // the audit is silent about them, the statement is not: what WAS delivered (to the healthy links of
+                // the same batch) is in flight from then on
+                for (_, d) in &unreported {
+                    if ambiguous(d) {
+                        continue;
+                    }
+                    out.checks += 1;
+                    let st = order_state(&engine, d.instr, &d.cid);
+                    if d.open {
+                        out.cells.insert("algo_batch_dropped_from_audit:delivered_open".into());
+                        if !matches!(st, Some(ActiveOrderState::OpenInFlight(_))) {
+                            return Err(("sent_open_not_shown_in_flight", format!("event #{idx}: {d:?} was delivered (algo batch that also hit a dead link; its output is dropped from the audit) but order state is {st:?}")));
+                        }
+                    } else if orders_before.contains_key(&(d.instr, d.cid.clone())) {
+                        out.cells.insert("algo_batch_dropped_from_audit:delivered_cancel_of_tracked_order".into());
+                        if !matches!(st, Some(ActiveOrderState::CancelInFlight(_))) {
+                            return Err(("sent_cancel_of_tracked_order_not_shown_in_flight", format!("event #{idx}: {d:?} was delivered (algo batch that also hit a dead link; its output is dropped from the audit), order was {:?}, now {st:?}", orders_before.get(&(d.instr, d.cid.clone())))));
+                        }
+                    }
+                }
             } else {
                 return Err(("request_delivered_but_not_reported_sent", format!("event #{idx} {ev:?}: {unreported:?}")));
             }
@@ -912,6 +932,8 @@ fn main() {
         }
         for c in [
             "cancel_of_tracked_order_sent",
+            "algo_batch_dropped_from_audit:delivered_open",
+            "algo_batch_dropped_from_audit:delivered_cancel_of_tracked_order",
             "account_snapshot_not_listing_an_in_flight_order",
             "builder:sent_and_delivered_to_own_client",
             "builder:linked_exchange_after_an_unlinked_one",
